@@ -12,8 +12,10 @@ TRUSTED_BASE = [
 ]
 
 STANDING_ASSUMPTIONS = list(TRUSTED_BASE) + [
-    "extraction is mechanical (tools/extract, rules R1-R15 logged per run in coverage.verus.rewrite_samples); spans and token spacing are dropped",
+    "extraction is mechanical (tools/extract, rules R1-R16 logged per run in coverage.verus.rewrite_samples); spans and token spacing are dropped",
     "R13: iter().enumerate().map(F).fold(I,G), iter().filter(P).count() and a filter adaptor consumed once by a quote! repetition mean the index loops they are rewritten to (closures verbatim); laziness of filter is dropped",
+    "R16: the bodies of three helper-function quotes of <JoinOutput as ToTokens>::to_tokens (tokio spawn helper, inspect helper, thread-builder helper) are left unspecified (uninterpreted functions of the names they interpolate); only WHETHER and WHERE each is emitted is under contract",
+    "to_tokens / generate_steps are verified under jo_wf (branch_count == depths.len() == branch_pats.len() >= 1, max_step_count >= 1), which JoinOutput::new establishes by construction (branch_count = branches.len() checked non-zero by the guard chain, depths / branch_pats collected from the same branches); the body of `new` as a whole is outside Verus' reach and this link is not machine-checked",
     "machine integers: usize arithmetic in contracted functions is checked for overflow by Verus where it occurs",
 ]
 
@@ -116,5 +118,6 @@ P("C17", "proof", kani={"timeout": "1500s", "compile_clause": True},
 
 P("C19", "other", kani={"timeout": "600s", "compile_clause": True},
   explanation="bounds claim only: programs over move-only (no Clone, counting Drop), non-Send (Rc) and stack-borrowing (&, &mut, non-'static) values must type-check through the real expansion of the four non-spawning executable kinds (rustc's type system is the checker; a rustc error originating in the macro is the violation) and run to the documented value under Kani with live()==0 at the end",
-  bounded="11 programs (operators, steps, wrappers, handlers, let names, async)",
+  unbounded="<JoinOutput as ToTokens>::to_tokens: for every JoinOutput the sync expansion is `{ helpers; [let __handler = h;] let __results = { steps }; handle }` and the async one the same inside ONE `Box::pin(async move { .. })` - the steps are a plain block of the scope the macro is called in (no closure, thread or further box of the macro's own around them), the spawn helpers exist only for the spawning kinds",
+  bounded="21 programs (operators, steps, wrappers, handlers, let names, async, results holding fresh &mut reborrows with and without handlers)",
   not_decided="the heap-allocation claim (Kani ignores custom allocators; no verifier here decides it); spawn kinds legitimately need Send + 'static")
